@@ -3,6 +3,7 @@ package main
 import (
 	"fmt"
 	"go/types"
+	"os"
 	"path/filepath"
 	"strings"
 	"unicode"
@@ -113,6 +114,14 @@ func (w *Worker) harnessIntrinsic(st *State, f *Frame, x ssa.Value, name string,
 		w.job.mu.Lock()
 		w.job.Records = append(w.job.Records, strings.ReplaceAll(txt, "\n", "\\n"))
 		w.job.mu.Unlock()
+	case "verifDebug":
+		if gCfg.Verbose {
+			var parts []string
+			for _, v := range st.sliceElems(args[0].(SliceV)) {
+				parts = append(parts, debugValue(st, v))
+			}
+			fmt.Fprintln(os.Stderr, "DEBUG:", strings.Join(parts, " | "))
+		}
 	case "verifSample":
 		// records a human-readable sample of what this path explored
 		id, _ := constString(args[0])
@@ -155,6 +164,9 @@ func (w *Worker) harnessIntrinsic(st *State, f *Frame, x ssa.Value, name string,
 			case Ptr:
 				q := pb.(Ptr)
 				same = pa.id != 0 && pa.id == q.id && fmt.Sprint(pa.path) == fmt.Sprint(q.path)
+			case StructV:
+				// value types (the zero-size built-in function structs): same type means same value
+				same = len(pa) == 0
 			}
 			if same {
 				res = mkOr(res, mkAnd(a.isKind(k), b.isKind(k)))
@@ -420,4 +432,28 @@ func (w *Worker) scannerText(st *State, set func(Value), r Ptr) {
 		return
 	}
 	set(stdinLine(int(k)))
+}
+
+func debugValue(st *State, v Value) string {
+	switch x := v.(type) {
+	case *Union:
+		if k, ok := x.constKind(); ok {
+			if k == KNil {
+				return "nil"
+			}
+			return kinds.name(k) + ":" + debugValue(st, x.P[k])
+		}
+		return "union(tag=" + x.Tag.S + ")"
+	case Term:
+		return x.S
+	case StrV:
+		return "str<" + x.key() + ">"
+	case SliceV:
+		var ps []string
+		for _, e := range st.sliceElems(x) {
+			ps = append(ps, debugValue(st, e))
+		}
+		return "[" + strings.Join(ps, ",") + "]"
+	}
+	return fmt.Sprintf("%T", v)
 }
